@@ -84,7 +84,7 @@ def generate(res, tier, wd, want, wrappers=("cvxpy",)):
     r = tlc("Pep", pep_cfg(2, 1, [1], wrappers, invs=False, plain=True, allowed=("lmi",)), wd)
     res.add_tlc("Pep(export: pairs of LMI shapes)", r)
     progs += [dict(p, _must=1) for p in _progs_from(r["out"]) if len(p["prog"]["lmis"]) == 2]
-    n = 1500 if tier == "quick" else 30000
+    n = 1500 if tier == "quick" else 6000
     r = tlc("Pep", pep_cfg(3, 3, classes_all, wrappers, invs=False), wd, workers=1, simulate="num=%d" % n,
             extra=["-depth", "7", "-seed", str(seed() + 3)])
     res.add_tlc("Pep(export: simulate)", r)
